@@ -37,6 +37,14 @@ func scaleCases(tier string) []scalekit.Case {
 			out = append(out, scalekit.Case{Shape: "revisions-with-equal-names", N: n, V: 3})
 		}
 	}
+	// names that concatenate alike: module M1 with base B1 and module M2 with base B2 such that
+	// M1+S+B1 = M2+S+B2 for a separator S (N picks it: none, -, ., _), the modules without revisions
+	// (variant 0), both with one (1), in one module set with a user that derives from both (2, 3)
+	for n := 0; n < 4; n++ {
+		for v := 0; v < 4; v++ {
+			out = append(out, scalekit.Case{Shape: "names-that-concatenate-alike", N: n, V: v})
+		}
+	}
 	maxK := 7
 	if tier == "thorough" {
 		maxK = 8
@@ -194,7 +202,57 @@ func checkRevisions(cs scalekit.Case) scalekit.Verdict {
 	return scalekit.OK()
 }
 
+func checkConcat(cs scalekit.Case) scalekit.Verdict {
+	sep := []string{"", "-", ".", "_"}[cs.N]
+	m1, b1 := "acme"+sep+"vlan", "stack"+sep+"type"
+	m2, b2 := "acme"+sep+"vlan"+sep+"stack", "type"
+	if sep == "" {
+		m1, b1, m2, b2 = "acme-vlan", "stacktype", "acme-vlanstack", "type"
+	}
+	rev := ""
+	if cs.V%2 == 1 {
+		rev = " revision 2020-01-01;"
+	}
+	mod := func(name, base, tag string) dump.File {
+		return dump.File{Name: name + ".yang", Text: fmt.Sprintf(`module %s { namespace "urn:%s"; prefix %s;%s identity %s; identity %s1 { base %s; } identity %s2 { base %s; } identity %s3 { base %s1; } leaf r { type identityref { base %s; } } }`, name, name, tag, rev, base, tag, base, tag, base, tag, tag, base)}
+	}
+	files := []dump.File{mod(m1, b1, "x"), mod(m2, b2, "y")}
+	want := map[string]string{m1 + ":" + b1: m1 + ":x1 " + m1 + ":x2 " + m1 + ":x3", m2 + ":" + b2: m2 + ":y1 " + m2 + ":y2 " + m2 + ":y3"}
+	if cs.V >= 2 {
+		files = append(files, dump.File{Name: "user.yang", Text: fmt.Sprintf(`module user { namespace "urn:user"; prefix user; import %s { prefix p; } import %s { prefix pq; } identity u1 { base p:%s; } identity u2 { base pq:%s; } }`, m1, m2, b1, b2)})
+		want[m1+":"+b1] += " user:u1"
+		want[m2+":"+b2] += " user:u2"
+	}
+	for _, revOrder := range []bool{false, true} {
+		for twice := 0; twice < 2; twice++ {
+			ms, errs, lerr := scalekit.Load(files, revOrder)
+			if lerr != nil || len(errs) > 0 {
+				return scalekit.Bad("spurious-errors", "loads and processes", fmt.Sprint(lerr, dump.Errors(errs)))
+			}
+			for _, mn := range []string{m1, m2} {
+				m := ms.Modules[mn]
+				base := m.Identity[0]
+				var got []string
+				for _, v := range base.Values {
+					got = append(got, yang.RootNode(v).Name+":"+v.Name)
+				}
+				sort.Strings(got)
+				if w := want[mn+":"+base.Name]; strings.Join(got, " ") != w {
+					return scalekit.Bad("derived-identities-of-a-module-with-a-related-name", mn+":"+base.Name+" = "+w, strings.Join(got, " "))
+				}
+				if r := yang.ToEntry(m).Dir["r"]; r == nil || r.Type == nil || r.Type.IdentityBase != base {
+					return scalekit.Bad("identityref-base-is-another-object", mn+":"+base.Name, "another identity")
+				}
+			}
+		}
+	}
+	return scalekit.OK()
+}
+
 func checkScale(cs scalekit.Case) scalekit.Verdict {
+	if cs.Shape == "names-that-concatenate-alike" {
+		return checkConcat(cs)
+	}
 	if cs.Shape == "equal-names" {
 		return checkEqualNames(cs)
 	}
